@@ -430,6 +430,27 @@ def conventional_plus(r, features=None, file_shapes=False):
             hints.append([h[0] for h in hints[:2] if h[0]])
         api.info["c16_subsets"] = api.info.get("c16_subsets", []) + [h for h in hints if h and all(h)]
         knobs.add("file_shapes")
+    lro_m = next((m for sv in api.services for m in sv.proto.method if m.output_type == apis.OPERATION), None)
+    if lro_m is not None and r.random() < 0.7:
+        oi = lro_m.options.Extensions[operations_pb2.operation_info]
+        meta_pb = protos.get(oi.metadata_type.split(".")[-1])
+        req_pb = protos.get(lro_m.input_type.split(".")[-1])
+        if meta_pb is not None and req_pb is not None:
+            crate = main.message("Crate")
+            cd = crate.nested("Lid")
+            cd.field("tight", 1, "bool")
+            crate.field("name", 1, "string").field("lid", 2, cd.fqn)
+            crate.resource("library.example.com/Crate", ["crates/{crate}"])
+            pallet = main.message("Pallet")
+            pallet.field("name", 1, "string")
+            pallet.resource("library.example.com/Pallet", ["pallets/{pallet}"])
+            share = main.message("LroScope")
+            share.field("pallet", 1, "string", child_ref="library.example.com/Pallet")
+            add_field(meta_pb, "crate", "string", ref="library.example.com/Crate")
+            add_field(meta_pb, "lro_scope", share.fqn)
+            add_field(req_pb, "lro_scope", share.fqn)
+            api.info.setdefault("c16_subsets", []).append([rpc_of(req_pb)])
+            knobs.add("lro_metadata_ref")
     if r.random() < 0.5 and api.services:
         # a service whose name extends the first service's name, with an rpc of the same name over its own types
         s0 = api.services[0]
@@ -658,6 +679,41 @@ def prefix_services_api():
         hints += [[f"{pkg}.{long_}.Get"], [f"{pkg}.{short}.Get"]]
     hints.append([f"{pkg}.LibraryAdmin.Get", f"{pkg}.Svc10.Fetch"])
     return apigen.request([f]), hints
+
+
+def lro_metadata_ref_api():
+    """Fixed names (seeded change C16-l): a google.longrunning LRO whose METADATA type carries resource references that
+    nothing else follows: `type` directly on the metadata (Book), `child_type` in a nested sub-message (Shelf), and
+    `type` in the message Scope that the request and the metadata share (Vault)."""
+    pkg = "google.example.library.v1"
+    f = File("google/example/library/v1/library.proto", pkg, deps=list(apigen.STD_DEPS) + ["google/longrunning/operations.proto"])
+    for word, pat, ref_field in (("Book", "shelves/{shelf}/books/{book}", None), ("Shelf", "shelves/{shelf}", None), ("Vault", "vaults/{vault}", None)):
+        det = f.message(word + "Details")
+        en = det.enum("Grade", ["GRADE_UNSPECIFIED", "FINE"])
+        det.field("grade", 1, ("enum", en))
+        m = f.message(word)
+        m.field("name", 1, "string").field("details", 2, det.fqn)
+        m.resource(f"example.googleapis.com/{word}", [pat])
+    scope = f.message("Scope")
+    scope.field("vault", 1, "string", ref="example.googleapis.com/Vault").field("depth", 2, "int32")
+    req = f.message("ImportBooksRequest")
+    req.field("parent", 1, "string").field("source", 2, "string").field("scope", 3, scope.fqn)
+    res = f.message("ImportBooksResponse")
+    res.field("count", 1, "int32")
+    meta = f.message("ImportBooksMetadata")
+    prog = meta.nested("Progress")
+    prog.field("shelf_parent", 1, "string", child_ref="example.googleapis.com/Shelf").field("done", 2, "int32")
+    meta.field("book", 1, "string", ref="example.googleapis.com/Book").field("progress", 2, prog.fqn).field("scope", 3, scope.fqn)
+    preq = f.message("PingRequest")
+    preq.field("x", 1, "string")
+    pres = f.message("PingResponse")
+    pres.field("y", 1, "string")
+    f.message("Unrelated").field("z", 1, "string")
+    s = f.service("Library", host="library.example.com")
+    s.rpc("ImportBooks", req.fqn, apis.OPERATION, http=("post", "/v1/{parent=shelves/*}/books:import"), body="*",
+          lro=("ImportBooksResponse", "ImportBooksMetadata"))
+    s.rpc("Ping", preq.fqn, pres.fqn, http=("post", "/v1/ping"), body="*")
+    return apigen.request([f]), [[f"{pkg}.Library.ImportBooks"]]
 
 
 def dep_package_api(r):
